@@ -313,6 +313,22 @@ def edges(ctx, ks, full):
         ctx.obligation("sequential edge run", "harness", False, res.get("trace", res["error"]))
     else:
         ctx.log("sequential edge: 40-line dense kernel returned after %.1fs, timed_out=%s (edge not observed)" % (res["wall"], res["timed_out"]))
+    # (1b) a dense kernel of EXACTLY the threshold length must take the timed (parallel) branch and return in time
+    from osaca.semantics import KernelDG
+    thr = int(KernelDG.INSTRUCTION_THRESHOLD)
+    spec_t = {"isa": "x86", "arch": "zen2", "text": lcd_par.gen_fib_x86(thr)}
+    t0 = time.time()
+    res_t = c16.run_batches(ctx, [[{"spec": spec_t, "timeout": 1, "want_paths": False, "report": False}]], timeout=limit, jobs=1)[0][0]
+    dt = time.time() - t0
+    ctx.count()
+    if "error" in res_t and "driver died or timed out" in res_t["error"]:
+        ctx.violation("kernel_dg.py:check_for_loopcarried_dep:kernel-of-threshold-length-not-timed",
+                      "dense kernel of exactly %d lines (the documented threshold for the timed multi-process search), --lcd-timeout 1: "
+                      "still running after %.0f s" % (thr, dt), {"kind": "sequential-untimed", "spec": spec_t, "timeout": 1, "limit": limit})
+    elif "error" in res_t:
+        ctx.obligation("threshold-length edge run", "harness", False, res_t.get("trace", res_t["error"]))
+    elif not res_t.get("timed_out"):
+        ctx.log("threshold-length dense kernel returned after %.1fs without time-out flag" % res_t["wall"])
     # (2) flag without cut: the parent is descheduled (a) just before reading start_time with timeout 0,
     #     (b) during its first 0.2 s sleep with timeout 1 -- all workers finish meanwhile
     name = "gs+pad52"
